@@ -28,6 +28,7 @@ Record arail := mkR { ar_type : string; ar_name : string; ar_decisions : list st
                       ar_actions : list xaction; ar_stop : bool }.
 
 Definition mem (s : string) (l : list string) : bool := existsb (String.eqb s) l.
+Arguments mem : simpl never.
 
 (* Working state.  `g_rails` is REVERSED (head = the rail appended last), and inside a rail
    the decisions, the actions and the llm tasks are reversed too; `finalize` restores the order.
